@@ -69,6 +69,10 @@ def build_specs(basic_nodes: dict, basic_marks: dict, list_nodes: dict) -> dict:
     n = _strip(ln)
     n["iso"] = {"group": "block", "content": "block+", "isolating": True}
     Z["iso"] = {"nodes": n, "marks": _strip(basic_marks)}
+    # isolating node with a SEQUENCE-like content expression (its start state differs from the later ones)
+    n = _strip(ln)
+    n["list_item"] = {**n["list_item"], "isolating": True}
+    Z["iso_li"] = {"nodes": n, "marks": _strip(basic_marks)}
 
     # Z8 table-like
     n = _strip(ln)
@@ -142,7 +146,59 @@ def build_specs(basic_nodes: dict, basic_marks: dict, list_nodes: dict) -> dict:
         n2 = _strip(n)
         n2["note"] = {**n["note"], "parseDOM": [{"tag": "p", "context": ctx, "priority": 60, "getAttrs": lambda _dom: {}}]}
         Z[cid + "_ga"] = {"nodes": n2, "marks": _strip(basic_marks), "context": ctx}
+    # ... and with the DEFAULT priority, declared before `paragraph`: among rules of equal priority the one declared
+    # first is tried first, so the context-restricted rule still wins where its context matches
+    for cid, ctx in (("ctx_bq_eq", "blockquote/"), ("ctx_li_eq", "list_item/")):
+        base = _strip(ln)
+        base["list_item"] = {**base["list_item"], "content": "block+"}
+        n = {"doc": base["doc"],
+             "note": {"content": "inline*", "group": "block", "parseDOM": [{"tag": "p", "context": ctx}],
+                      "toDOM": lambda _n: ["p", {"class": "note"}, 0]}}
+        n.update({k: v for k, v in base.items() if k != "doc"})
+        Z[cid] = {"nodes": n, "marks": _strip(basic_marks), "context": ctx}
+    # inline nodes WITH content: an atom (`atom: true` is not the same as leaf) and a plain inline container
+    n = _strip(basic_nodes)
+    n["chip"] = {"inline": True, "group": "inline", "content": "text*", "atom": True,
+                 "toDOM": lambda _n: ["kbd", 0], "parseDOM": [{"tag": "kbd"}]}
+    n["span"] = {"inline": True, "group": "inline", "content": "text*",
+                 "toDOM": lambda _n: ["span", 0], "parseDOM": [{"tag": "span"}]}
+    Z["chips"] = {"nodes": n, "marks": _strip(basic_marks)}
+    # an INLINE node that holds blocks (footnote): wrapping a block at an inline position is possible
+    n = _strip(basic_nodes)
+    n["footnote"] = {"inline": True, "group": "inline", "content": "block+",
+                     "toDOM": lambda _n: ["aside", 0], "parseDOM": [{"tag": "aside"}]}
+    Z["footnote"] = {"nodes": n, "marks": _strip(basic_marks)}
+    Z.update(pair_specs())
     return Z
+
+
+# Schema pairs for isolation checks.  The two members of a pair have the SAME node and mark names (so documents,
+# slices and steps have the same JSON) and the same content-expression strings, but differ in meaning: group
+# membership, mark rank order and mark exclusion.  adapters.ctx always instantiates the two
+# members of a pair in the order given here, in whatever process they are first used, so that state leaking from
+# one Schema instance into another (module-level caches, registries keyed by names or JSON) is observed
+# deterministically; the two tags give both creation orders.
+PAIR_ORDERS = {"1": "PS", "2": "SP"}
+
+
+def pair_specs() -> dict:
+    out = {}
+    for tag in PAIR_ORDERS:
+        para, rule, quote = "para" + tag, "rule" + tag, "quote" + tag
+        em, strong, code = "em" + tag, "strong" + tag, "code" + tag
+        for kind in "PS":
+            P = kind == "P"
+            nodes = {
+                "doc": {"content": "block+"},
+                para: {"content": "inline*", "group": "block", "attrs": {"n": {"default": 0}}},
+                rule: {"group": "block" if P else "misc"},
+                quote: {"content": "block+", "group": "block"},
+                "text": {"group": "inline"},
+            }
+            m = {em: {"excludes": em if P else f"{em} {strong}"}, strong: {}, code: {}}
+            names = [em, strong, code] if P else [code, strong, em]
+            out[f"pair{kind}{tag}"] = {"nodes": nodes, "marks": {k: m[k] for k in names}}
+    return out
 
 
 def mark_family_specs(orders=None):
